@@ -9,6 +9,15 @@ TB = ("Trusted base: go/types+go/ssa (x/tools v0.29.0) front end, the govc VC ge
       "assumed contracts of external libraries listed per run in the evidence file. ")
 
 CLAIMS = {
+ "C14": dict(
+   technique="contract-based deductive verification: contracts and a data-structure invariant on the real imports table over go/ssa, string/regex SMT",
+   text=("Proof that decorateImport resolves a reference through the alias table on whole path segments only (the alias that applies is the first path segment; a lemma shows no other alias can match), "
+         "that Alias keeps the import-table invariant (every used path has the local name i<hex(c)>_<sanitised last element> of a distinct counter value, hence the same package always gets the same name and different packages never share one), "
+         "that RegisterPrefixAlias rejects exactly duplicates, that Imports() lists every used package once in strictly increasing path order, that SanitizeImport maps quoted/unquoted/'.' forms as documented, "
+         "and that the alias and import grammars equal their documented languages."),
+   note=("Build-time half. Not covered: how the compile steps split a reference into import and symbol (regex captures: the obligations time out and were dropped), template-internal imports (an alias equal to a standard package name such as fmt still captures the template's own import: recorded in DESIGN.md section 5 as not expressible by the current contracts), goimports pruning, linking. "
+         "hex/sanitise/last-segment are abstract functions with an assumed injectivity axiom. " + TB),
+   design="DESIGN.md section 4 C14"),
  "C11": dict(
    technique="contract-based deductive verification: regex language equivalence (SMT RegLan) + accept-iff contracts on every validator over go/ssa, SMT",
    text=("Proof in two layers. (1) For each of the 31 grammar regular expressions compiled anywhere in /repo, the language of the constant the compiler sees (wrapped as MustCompileAz wraps it) "
